@@ -230,10 +230,18 @@ func runTimerTrace(w *tr.W, steps []tstep) (ticks int, endParked bool) {
 		return v, ok
 	}
 
+	// len(t.C) read immediately before a Stop / Reset is issued: whether the tick of the arming the call
+	// cancels had been delivered by then is what tells a tick that was left behind from one in flight
+	prelen := func() {
+		if cap(tm.C) == 1 {
+			w.Emit(tr.E{"ev": "len", "n": len(tm.C)})
+		}
+	}
 	hung := false
 	for _, st := range steps[1:] {
 		switch st.Op {
 		case "stop":
+			prelen()
 			a := tr.E{"op": "stop", "t": us()}
 			if _, ok := ctl(a, func() interface{} { tm.Stop(); return 0 }); !ok {
 				hung = true
@@ -242,6 +250,7 @@ func runTimerTrace(w *tr.W, steps []tstep) (ticks int, endParked bool) {
 				call(a, none)
 			}
 		case "reset":
+			prelen()
 			a := tr.E{"op": "reset", "t": us(), "d": st.D}
 			d := time.Duration(st.D) * time.Microsecond
 			if _, ok := ctl(a, func() interface{} { tm.Reset(d); return 0 }); !ok {
@@ -301,6 +310,13 @@ func runTimerTrace(w *tr.W, steps []tstep) (ticks int, endParked bool) {
 	if hung {
 		texec = nil // the controller sits inside neptune for ever: leave this executor behind
 		return
+	}
+	// every trace ends by collecting the tick the spec still expects (Reset really re-armed)
+	if expect && !x.Busy(pRecv) {
+		a := tr.E{"op": "recv", "t": us()}
+		x.Issue(pRecv, func() interface{} { return at(<-tm.C) })
+		call(a, none)
+		settle()
 	}
 	await()
 	settle()
